@@ -14,12 +14,13 @@ TRANSPARENT = [
     r'::into_future$', r'::into_iter$', r'::iter$', r'::as_os_str$', r'::to_str$', r'::to_string_lossy$', r'::into_owned$',
     r'::to_vec$', r'::into_inner$', r'::get_mut$', r'::trim$', r'::into_boxed_str$', r'::take$', r'::as_u64$',
     r'::unwrap_or_else$', r'::ok_or_else$', r'::ok_or$', r'::new_unchecked$', r'::from_residual$', r'::rev$', r'::next$',
-    r'::peekable$', r'::enumerate$',
+    r'::peekable$', r'::enumerate$', r'::last$', r'::first$', r'::last_mut$',
 ]
 _TR = [re.compile(p) for p in TRANSPARENT]
 # calls whose result is built from ALL their arguments
 ALL_ARGS = [re.compile(p) for p in (r'^std::path::Path::join$', r'^std::path::Path::with_extension$', r'^std::path::Path::with_file_name$',
-                                    r'::unwrap_or$', r'::from_residual$', r'^std::path::Path::strip_prefix$', r'::or$', r'::min$', r'::max$')]
+                                    r'::unwrap_or$', r'::from_residual$', r'^std::path::Path::strip_prefix$', r'::or$', r'::min$', r'::max$',
+                                    r'::(saturating|wrapping|checked)_(add|sub|mul)$')]
 
 
 def is_transparent(callee, extra=()):
